@@ -199,14 +199,14 @@ def check(ctx, prop):
     if drift and not violations:
         level = "exploration"
         ctx.log("DRIFT: conformance layer rejected a trace although C25 held: " + json.dumps(conf["first_rejection"]))
-    nontrivial = sum(1 for i, s in enumerate(scheds) if len({r["st"] for r in runs[i] if r["ev"] in ("Query", "Probe")}) >= 2)
+    nontrivial = len({json.dumps(s, sort_keys=True) for i, s in enumerate(scheds) if len({r["st"] for r in runs[i] if r["ev"] in ("Query", "Probe")}) >= 2})
     cov = {
         "states": mc.distinct, "transitions": mc.generated, "depth": mc.depth, "exhaustive": True,
         "model_config": "MC_S3Health_%s.cfg" % ctx.tier,
         "traces_validated_against_impl": len(runs), "trace_events": len(rows),
         "evaluations": nquery, "gate_probes": nprobe, "gate_probes_while_unhealthy": nrej,
         "distinct_nontrivial": nontrivial,
-        "rule": "schedules = TLC counterexamples of the named deviations + TLC -simulate behaviours (seeded) of the monitor model (with ticks) and of the gate model (Record/Probe); evaluations = ratings returned by the real monitor and checked; non-trivial = the schedule observed at least two different ratings",
+        "rule": "schedules = TLC counterexamples of the named deviations + TLC -simulate behaviours (seeded) of the monitor model (with ticks) and of the gate model (Record/Probe); evaluations = ratings returned by the real monitor and checked; non-trivial = distinct schedules in which the real code returned at least two different ratings",
         "deviation_schedules": sorted(DEVIATIONS), "conformance": ("drift" if drift else "accepted"), "conformance_detail": conf,
         "binding_self_test": st,
         "samples": [mon[0][1], gate[0][1], runs[0][:5], runs[len(mon)][:5]],
